@@ -116,7 +116,7 @@ func c18r2(r *R) {
 	}
 	// same rule for the other list field rewritten from its old value
 	fm := r.fn(mpkg+"/header", "NewForwardedModifier")
-	for _, lit := range fm.AnonFuncs {
+	for _, lit := range anonFuncs(fm) {
 		for _, c := range calls(lit, nameIs("(net/http.Header).Set")) {
 			k, _ := constString(c.Common().Args[1])
 			if k != "X-Forwarded-For" {
